@@ -46,7 +46,7 @@ m = {
  "setup_cmd": "make -C /verif -j16 all",
  "hooks": {"guard": "OPENTELEMETRY_CPP_VERIF_SIM",
    "enable": "no source hook exists in /repo: checks recompile the unmodified sdk/src/**/*.cc and headers from /repo's working tree with -DOPENTELEMETRY_CPP_VERIF_SIM -include /verif/build/pch/vsim_prefix.h (token-renaming shim of std::atomic/mutex/condition_variable/thread/clocks/...); the define is used only by /verif sources",
-   "baseline_off_cmd": "ctest --test-dir /repo/_build -j8 --timeout 900", "source_commits": [], "add_only": True},
+   "baseline_off_cmd": "ninja -C /repo/_build > /dev/null && ctest --test-dir /repo/_build -j8 --timeout 900", "source_commits": [], "add_only": True},
  "engines": [{"name": e, "path": ENGINES[e][0], "serves_properties": [p for p in claimed if CHECKS[p][0] == e],
               "kind_free_text": "deterministic simulation: " + ENGINES[e][1]} for e in built],
  "checks": [{
